@@ -28,6 +28,11 @@ def _exec_chunk(args):
         if kind == "hist":
             cfg, hist = payload
             out.append(pair.run_hist(cfg, hist, tid, props))
+        elif kind == "solo":
+            cfg, side, ins = payload
+            t = drivers.solo_replay(tid, cfg, side, ins)
+            t["props"] = props
+            out.append(t)
         elif kind == "fn":
             name, kw = payload
             t = getattr(drivers, name)(tid=tid, **kw)
@@ -109,6 +114,33 @@ class Run:
         self.models.append(dict(name=name, cfgs=cfgs, schedules=len(sch), states=r.distinct, transitions=r.generated,
                                 wall_s=round(r.wall, 1), emit=True))
         return len(sch)
+
+    def solo(self, name: str, side: str, cfgs: str, cats, depth: int, props: list[str], allowed=(), limit: int | None = None,
+             timeout: int = 3600, pre=()) -> int:
+        """The adversarial single-handler model: TLC checks the monitors on every input sequence up to the depth bound over
+        the transducer, and every sequence is replayed into a lone real handler."""
+        r = models.run_solo(self.wd, name, side, cfgs, cats, depth, props, allowed=allowed, timeout=timeout, pre=pre)
+        timed_out = "TLC-TIMEOUT" in r.out
+        cfgs_by_id, seqs, viol = models.solo_sequences(r, limit, self.rng)
+        n_all = models.json_lines.last_total
+        if viol:
+            self.model_violated.append(f"{name}:" + json.dumps(viol[0][1])[:300])
+        elif not r.completed and not timed_out:
+            raise MachineryError(f"TLC did not complete on solo instance {name}: " + r.out[-1500:])
+        if timed_out:
+            self.exhaustive = False
+        if n_all > len(seqs):
+            self.exhaustive = False
+        for cid, ins in seqs:
+            self.jobs.append(("solo", self.next_tid, props, (cfgs_by_id[cid], side, ins)))
+            self.next_tid += 1
+        self.states += r.distinct
+        self.transitions += r.generated
+        self.sched_stats[name] = len(seqs)
+        self.models.append(dict(name=name, kind="solo", side=side, cfgs=cfgs, cats=list(cats), pre=[list(x) for x in pre], depth=depth, sequences=n_all,
+                                replayed=len(seqs), states=r.distinct, transitions=r.generated, wall_s=round(r.wall, 1),
+                                completed=r.completed, model_violations=len(viol)))
+        return len(seqs)
 
     def driver(self, fn: str, n: int, props: list[str], **kw) -> None:
         """n executions of a seeded driver of harness/drivers.py (each gets its own seed)."""
